@@ -5,6 +5,7 @@ import (
 	"encoding/json"
 	"fmt"
 	"math/rand"
+	"strings"
 
 	"github.com/vektah/gqlparser/v2/ast"
 	"github.com/vektah/gqlparser/v2/formatter"
@@ -176,11 +177,20 @@ func checkC12(c *core.Ctx) {
 	descs := map[int]string{}
 	var nontrivial int64
 	id := 0
-	for i := 0; i < ndocs; i++ {
-		gen.R = rng
-		doc := gen.Doc()
-		src := RenderIgnored(UnparseQuery(doc, rng), rng)
-		for _, o := range queryFmtOpts {
+	hand := handFormatDocs()
+	for i := 0; i < ndocs+len(hand); i++ {
+		var src string
+		opts := queryFmtOpts
+		if i < len(hand) {
+			src = hand[i]
+			// every hand document under four option sets, rotating
+			opts = []fmtOpts{queryFmtOpts[i%16], queryFmtOpts[(i+5)%16], queryFmtOpts[(i+10)%16], queryFmtOpts[(i+15)%16]}
+		} else {
+			gen.R = rng
+			doc := gen.Doc()
+			src = RenderIgnored(UnparseQuery(doc, rng), rng)
+		}
+		for _, o := range opts {
 			r, parsed := queryRoundTrip(src, o)
 			if !parsed {
 				break
@@ -221,4 +231,33 @@ func checkC12(c *core.Ctx) {
 		json.Unmarshal(raw, &b)
 		c.Violation(fmt.Sprintf("%s: %s", b.Class, descs[b.ID]), map[string]any{"what": b.Class, "case": descs[b.ID]})
 	}
+}
+
+// handFormatDocs: deterministic documents for the shapes the random stream
+// reaches rarely: every tricky string value in every spelling (as argument, as
+// default value, inside a list and an object), and documents with many
+// definitions sharing source lines in an order that differs from
+// operations-then-fragments.
+func handFormatDocs() []string {
+	var out []string
+	for _, v := range trickyStrings {
+		for _, sp := range stringSpellings(v) {
+			out = append(out, "{ f(a: "+sp+") }")
+			out = append(out, "query Q($v: String = "+sp+" @d(x: ["+sp+"])) { f(a: {k: "+sp+"}) @e(s: "+sp+") }")
+		}
+	}
+	for _, n := range []int{7, 9, 13, 20} {
+		var frags, ops, mixed strings.Builder
+		for i := 0; i < n; i++ {
+			fmt.Fprintf(&frags, "fragment F%d on T { a%d } ", i, i)
+			fmt.Fprintf(&ops, "query Q%d { b%d ...F%d } ", i, i, i)
+			fmt.Fprintf(&mixed, "query M%d { b%d } fragment G%d on T { a%d } ", i, i, i, i)
+			if i%3 == 2 {
+				mixed.WriteString("\n")
+			}
+		}
+		out = append(out, frags.String()+"\n"+ops.String(), ops.String()+"\n"+frags.String(), frags.String()+ops.String(), mixed.String(),
+			frags.String()+"\n"+ops.String()+"\n"+mixed.String())
+	}
+	return out
 }
